@@ -3,3 +3,12 @@ let site_name (s : site) : Stdlib.String.t =
   match s with
   | SiteUnwrap _ -> "unwrap" | SiteSlice _ -> "slice" | SiteAssert _ -> "assert"
   | SiteDebugAssert _ -> "debug_assert" | SiteUnchecked _ -> "unchecked" | SiteOverflow _ -> "overflow"
+
+let render_res (ok : 'a -> Stdlib.String.t) (err : 'e -> Stdlib.String.t) (r : ('e, 'a) res) : Stdlib.String.t =
+  match r with
+  | Ok a -> let t = ok a in if t = "" then "ok" else "ok " ^ t
+  | Err e -> "err " ^ err e
+  | Panic s -> "panic " ^ site_name s
+  | UB s -> "ub " ^ site_name s
+  | OutOfFuel -> "outoffuel"
+  | OverBudget -> "overbudget"
